@@ -319,19 +319,19 @@ Qed.
 (* every row-level step either leaves the table alone or replaces the binding
    of one key by a binding under a key that is free after the removal *)
 Definition step_shape (sch : schema) (t t' : tbl) : Prop :=
-  t' = t \/ exists k k' v, t' = put k' v (remove k t) /\ lookup k' (remove k t) = None /\
-                          k' = key_of sch v.
+  t' = t \/ exists (f : key * row -> bool) k' v,
+              t' = put k' v (filter f t) /\ lookup k' (filter f t) = None /\ k' = key_of sch v.
 
 Lemma step_shape_wf sch t t' : step_shape sch t t' -> tbl_wf t -> tbl_wf t'.
 Proof.
-  intros [->|[k [k' [v [-> [L _]]]]]] W; auto.
-  apply put_wf; auto. now apply remove_wf.
+  intros [->|[f [k' [v [-> [L _]]]]]] W; auto.
+  apply put_wf; auto. now apply filter_wf.
 Qed.
 
 Lemma step_shape_sorted sch t t' : step_shape sch t t' -> sorted t -> sorted t'.
 Proof.
-  intros [->|[k [k' [v [-> [L _]]]]]] S; auto.
-  apply sorted_put; auto. now apply sorted_remove.
+  intros [->|[f [k' [v [-> [L _]]]]]] S; auto.
+  apply sorted_put; auto. now apply sorted_filter.
 Qed.
 
 Lemma free_after_remove k k' t :
@@ -341,17 +341,64 @@ Proof.
   cbn in H. unfold mem in H. destruct (lookup k' t); [discriminate|auto].
 Qed.
 
+Lemma filter_true {A} (l : list A) : filter (fun _ => true) l = l.
+Proof. induction l; cbn; congruence. Qed.
+
 Lemma update_row_shape bl sch en sets inc s kr s' :
   update_row bl sch en sets inc s kr = WOk s' -> step_shape sch (w_t s) (w_t s').
 Proof.
   unfold update_row. destruct kr as [k old].
   destruct (apply_sets en sets old) as [vals|]; [|discriminate].
   destruct (row_eqb vals old); [intro H; inversion H; now left|].
-  destruct (bl (key_of sch vals)); [discriminate|].
-  destruct (negb (key_eqb (key_of sch vals) k) && mem (key_of sch vals) (w_t s)) eqn:C; [discriminate|].
-  intro H; inversion H; cbn. right. do 3 eexists. split; [reflexivity|].
-  split; [now apply free_after_remove|reflexivity].
+  destruct (existsb bl (row_locks sch vals)); [discriminate|].
+  destruct (negb (key_eqb (key_of sch vals) k) && mem (key_of sch vals) (w_t s)) eqn:C;
+    cbn [orb]; [discriminate|].
+  destruct (sec_conflicts (s_uniq sch) vals [k; key_of sch vals] (w_t s)); [|discriminate].
+  intro H; inversion H; cbn. right. rewrite remove_as_filter. do 3 eexists. split; [reflexivity|].
+  split; [rewrite <- remove_as_filter; now apply free_after_remove|reflexivity].
 Qed.
+
+(* what a successful update_row did *)
+Lemma update_row_ok bl sch en sets inc s k old s' :
+  update_row bl sch en sets inc s (k, old) = WOk s' ->
+  s' = s \/ exists vals,
+    apply_sets en sets old = Ok vals /\ row_eqb vals old = false /\
+    existsb bl (row_locks sch vals) = false /\
+    lookup (key_of sch vals) (remove k (w_t s)) = None /\
+    sec_conflicts (s_uniq sch) vals [k; key_of sch vals] (w_t s) = [] /\
+    s' = {| w_t := put (key_of sch vals) vals (remove k (w_t s));
+            w_auto := bump_auto (s_cols sch) vals (w_auto s);
+            w_aff := w_aff s + inc; w_last := w_last s;
+            w_locks := w_locks s ++ row_locks sch vals |}.
+Proof.
+  unfold update_row.
+  destruct (apply_sets en sets old) as [vals|]; [|discriminate].
+  destruct (row_eqb vals old) eqn:RE; [intro H; inversion H; now left|].
+  destruct (existsb bl (row_locks sch vals)) eqn:B; [discriminate|].
+  destruct (negb (key_eqb (key_of sch vals) k) && mem (key_of sch vals) (w_t s)) eqn:C;
+    cbn [orb]; [discriminate|].
+  destruct (sec_conflicts (s_uniq sch) vals [k; key_of sch vals] (w_t s)) eqn:SC; [|discriminate].
+  intro H; inversion H. right. exists vals. repeat split; auto. now apply free_after_remove.
+Qed.
+
+Definition in_the_way (sch : schema) (vals : row) (t : tbl) : tbl :=
+  match lookup (key_of sch vals) t with Some old => [(key_of sch vals, old)] | None => [] end
+  ++ sec_conflicts (s_uniq sch) vals [key_of sch vals] t.
+
+Lemma replace_target_free sch vals t :
+  lookup (key_of sch vals) (remove_keys (keys (in_the_way sch vals t)) t) = None.
+Proof.
+  unfold remove_keys, in_the_way.
+  rewrite (lookup_filter_key (fun k0 => negb (existsb (key_eqb k0) (keys
+     (match lookup (key_of sch vals) t with Some old => [(key_of sch vals, old)] | None => [] end
+      ++ sec_conflicts (s_uniq sch) vals [key_of sch vals] t))))).
+  destruct (lookup (key_of sch vals) t) eqn:L; cbn.
+  - now rewrite key_eqb_refl.
+  - now destruct (negb _).
+Qed.
+
+Lemma in_the_way_nil sch vals t : in_the_way sch vals t = [] -> lookup (key_of sch vals) t = None.
+Proof. unfold in_the_way. destruct (lookup (key_of sch vals) t); [discriminate|auto]. Qed.
 
 Lemma insert_row_shape bl sch en mode idx ondup s es s' :
   insert_row bl sch en mode idx ondup s es = WOk s' -> step_shape sch (w_t s) (w_t s').
@@ -361,15 +408,19 @@ Proof.
             fill_defaults (s_cols sch) g) as [vals0|]; [|discriminate].
   destruct (gen_auto (s_cols sch) vals0 (w_auto s) (w_last s)) as [[vals1 auto1] last1].
   destruct (store_all (s_cols sch) vals1 auto1) as [auto2 [vals|]]; [|discriminate].
-  destruct (bl (key_of sch vals)); [discriminate|].
-  destruct (lookup (key_of sch vals) (w_t s)) as [old|] eqn:L.
+  destruct (existsb bl (row_locks sch vals)); [discriminate|].
+  fold (in_the_way sch vals (w_t s)).
+  pose proof (replace_target_free sch vals (w_t s)) as RF.
+  pose proof (in_the_way_nil sch vals (w_t s)) as NF.
+  destruct (in_the_way sch vals (w_t s)) as [|[ko old] more].
+  - intro H; inversion H; cbn. right. exists (fun _ => true), (key_of sch vals), vals.
+    rewrite filter_true. auto.
   - destruct ondup as [|x ondup].
-    + destruct mode; intro H; inversion H; cbn.
-      * now left.
-      * right. do 3 eexists. split; [reflexivity|]. split; [apply lookup_remove_eq|reflexivity].
-    + intro H. apply update_row_shape in H. exact H.
-  - intro H; inversion H; cbn. right. exists (key_of sch vals), (key_of sch vals), vals.
-    rewrite (remove_absent _ _ L). repeat split; auto.
+    + destruct mode; try discriminate.
+      * intro H; inversion H; now left.
+      * destruct (existsb bl (keys ((ko, old) :: more))); [discriminate|].
+        intro H; inversion H; cbn. right. do 3 eexists. split; [reflexivity|]. split; [exact RF|reflexivity].
+    + destruct (bl ko); [discriminate|]. intro H. apply update_row_shape in H. exact H.
 Qed.
 
 Lemma wfold_inv {A} (P : wstate -> Prop) (f : wstate -> A -> wres) l :
@@ -678,11 +729,7 @@ Proof.
             _ sel _ _ s1 _ F k r L NI); [|cbn; auto].
   clear. intros s [k0 old] s' I P H k r L NI.
   specialize (P k r L NI).
-  unfold update_row in H.
-  destruct (apply_sets _ sets old) as [vals|]; [|discriminate].
-  destruct (row_eqb vals old); [inversion H; now subst|].
-  destruct (negb (key_eqb (key_of sch vals) k0) && mem (key_of sch vals) (w_t s)) eqn:C; [discriminate|].
-  apply free_after_remove in C. inversion H; subst; cbn.
+  apply update_row_ok in H. destruct H as [->|[vals [_ [_ [_ [C [_ ->]]]]]]]; auto. cbn.
   assert (K0 : k <> k0).
   { intro; subst. apply NI. apply in_map_iff. exists (k0, old). auto. }
   rewrite lookup_put by auto. rewrite (lookup_remove_neq k0 k) by congruence.
@@ -701,9 +748,10 @@ Proof.
             fill_defaults (s_cols sch) g) as [vals0|]; [|discriminate].
   destruct (gen_auto (s_cols sch) vals0 (w_auto s) (w_last s)) as [[vals1 auto1] last1].
   destruct (store_all (s_cols sch) vals1 auto1) as [auto2 [vals|]]; [|discriminate].
-  cbn [no_block].
-  destruct (lookup (key_of sch vals) (w_t s)) as [old|] eqn:L; [discriminate|].
-  intro H; inversion H; cbn. eauto.
+  rewrite existsb_no_block. fold (in_the_way sch vals (w_t s)).
+  pose proof (in_the_way_nil sch vals (w_t s)) as NF.
+  destruct (in_the_way sch vals (w_t s)) as [|[ko old] more]; [|discriminate].
+  intro H; inversion H; cbn. exists (key_of sch vals), vals. split; [now apply NF|auto].
 Qed.
 
 Lemma insert_plain_fold sch en idx rows : forall s s',
@@ -745,17 +793,21 @@ Proof.
   apply insert_plain_fold in F. cbn in F. destruct F as [A [B C]]. repeat split; auto.
 Qed.
 
-(* a duplicate key refuses the whole plain INSERT with 1062 *)
+(* a row in the way - on the primary key or on any secondary unique index -
+   refuses the whole plain INSERT with 1062 *)
 Theorem insert_duplicate_key_1062 sch en idx s es :
-  forall vals0 vals1 auto1 last1 auto2 vals old,
+  forall vals0 vals1 auto1 last1 auto2 vals,
   (do g <- given_values en (s_cols sch) idx es (map (fun _ => None) (s_cols sch));
    fill_defaults (s_cols sch) g) = Ok vals0 ->
   gen_auto (s_cols sch) vals0 (w_auto s) (w_last s) = (vals1, auto1, last1) ->
   store_all (s_cols sch) vals1 auto1 = (auto2, Ok vals) ->
-  lookup (key_of sch vals) (w_t s) = Some old ->
-  insert_row no_block sch en InsPlain idx [] s es = WFail auto2 (w_locks s ++ [key_of sch vals]) (EErr E_DUP).
+  in_the_way sch vals (w_t s) <> [] ->
+  insert_row no_block sch en InsPlain idx [] s es =
+  WFail auto2 (w_locks s ++ row_locks sch vals) (EErr E_DUP).
 Proof.
-  intros * H1 H2 H3 H4. unfold insert_row. rewrite H1, H2, H3, H4. reflexivity.
+  intros * H1 H2 H3 H4. unfold insert_row. rewrite H1, H2, H3, existsb_no_block.
+  fold (in_the_way sch vals (w_t s)).
+  destruct (in_the_way sch vals (w_t s)) as [|[ko old] more]; [congruence|reflexivity].
 Qed.
 
 (* ================================================================ upsert *)
@@ -764,28 +816,31 @@ Qed.
    VALUES(col) reading the row that would have been inserted *)
 Theorem upsert_is_insert_or_update sch en mode idx x ondup s es s' :
   insert_row no_block sch en mode idx (x :: ondup) s es = WOk s' ->
-  (exists k vals, lookup k (w_t s) = None /\ w_t s' = put k vals (w_t s) /\
-                  w_aff s' = w_aff s + 1)
+  (exists k vals, lookup k (w_t s) = None /\ in_the_way sch vals (w_t s) = [] /\
+                  w_t s' = put k vals (w_t s) /\ w_aff s' = w_aff s + 1)
   \/
-  (exists k old vals s1,
-      lookup k (w_t s) = Some old /\ k = key_of sch vals /\
+  (* the row updated is the FIRST one in the way: the holder of the primary key
+     if there is one, else the first holder of a secondary unique value *)
+  (exists ko old more vals s1,
+      in_the_way sch vals (w_t s) = (ko, old) :: more /\
       w_t s1 = w_t s /\ w_aff s1 = w_aff s /\
       update_row no_block sch {| e_cols := s_cols sch; e_row := []; e_args := e_args en; e_ins := Some vals |}
-                 (x :: ondup) 2 s1 (k, old) = WOk s').
+                 (x :: ondup) 2 s1 (ko, old) = WOk s').
 Proof.
   unfold insert_row.
   destruct (do g <- given_values en (s_cols sch) idx es (map (fun _ => None) (s_cols sch));
             fill_defaults (s_cols sch) g) as [vals0|]; [|discriminate].
   destruct (gen_auto (s_cols sch) vals0 (w_auto s) (w_last s)) as [[vals1 auto1] last1].
   destruct (store_all (s_cols sch) vals1 auto1) as [auto2 [vals|]]; [|discriminate].
-  cbn [no_block].
-  destruct (lookup (key_of sch vals) (w_t s)) as [old|] eqn:L.
-  - intro H. right.
-    exists (key_of sch vals), old, vals,
+  rewrite existsb_no_block. fold (in_the_way sch vals (w_t s)).
+  pose proof (in_the_way_nil sch vals (w_t s)) as NF.
+  destruct (in_the_way sch vals (w_t s)) as [|[ko old] more] eqn:W.
+  - intro H; inversion H; cbn. left. exists (key_of sch vals), vals. repeat split; auto.
+  - cbn [no_block]. intro H. right.
+    exists ko, old, more, vals,
       {| w_t := w_t s; w_auto := auto2; w_aff := w_aff s; w_last := last1;
-         w_locks := w_locks s ++ [key_of sch vals] |}.
+         w_locks := (w_locks s ++ row_locks sch vals) ++ [ko] |}.
     cbn. repeat split; auto.
-  - intro H; inversion H; cbn. left. eauto.
 Qed.
 
 Lemma insert_row_plain_any sch en mode idx ondup s es s' :
@@ -797,8 +852,9 @@ Proof.
             fill_defaults (s_cols sch) g) as [vals0|]; [|discriminate].
   destruct (gen_auto (s_cols sch) vals0 (w_auto s) (w_last s)) as [[vals1 auto1] last1].
   destruct (store_all (s_cols sch) vals1 auto1) as [auto2 [vals|]]; [|discriminate].
-  cbn [no_block].
-  destruct (lookup (key_of sch vals) (w_t s)) as [old|] eqn:L; [discriminate|auto].
+  rewrite existsb_no_block.
+  destruct (_ ++ sec_conflicts (s_uniq sch) vals [key_of sch vals] (w_t s)) as [|[ko old] more];
+    [auto|discriminate].
 Qed.
 
 (* when no listed key collides, the upsert / IGNORE / REPLACE forms are the plain INSERT *)
@@ -841,7 +897,7 @@ Definition sch : schema :=
                     c_default := Some VNull; c_auto := false |};
                  {| c_name := c_age; c_ty := TInt (-128) 127; c_notnull := true;
                     c_default := Some (VInt 7); c_auto := false |} ];
-     s_pk := [0%nat] |}.
+     s_pk := [0%nat]; s_uniq := [] |}.
 
 Definition row1 := [VInt 1; VStr [x61]; VInt 5].
 Definition row2 := [VInt 2; VNull; VInt 9].
@@ -946,11 +1002,9 @@ Proof.
     assert (Step : (w_t s1 = w_t s /\ w_aff s1 = w_aff s /\ lookup k0 (w_t s1) = Some old) \/
                    (exists vals, row_eqb vals old = false /\ w_aff s1 = w_aff s + 1 /\
                        forall k, lookup k (w_t s1) = if key_eqb k k0 then Some vals else lookup k (w_t s))).
-    { unfold update_row in E. destruct (apply_sets en sets old) as [vals|] eqn:AS; [|discriminate].
-      destruct (row_eqb vals old) eqn:RE.
-      - inversion E; subst. left. auto.
-      - rewrite (KK _ _ _ EC AS), <- K0, key_eqb_refl in E. cbn [negb andb] in E.
-        injection E as E1. rewrite <- E1. cbn.
+    { apply update_row_ok in E. destruct E as [E|[vals [AS [RE [_ [_ [_ E]]]]]]].
+      - rewrite E. left. auto.
+      - rewrite E. cbn. rewrite (KK _ _ _ EC AS), <- K0.
         right. exists vals. repeat split; auto. intro k.
         rewrite lookup_put by apply lookup_remove_eq.
         keq k k0; auto. apply lookup_remove_neq; congruence. }
@@ -1030,10 +1084,10 @@ Qed.
 (* ================================================================ rows stay filed under their own key *)
 Lemma step_shape_keyed sch t t' : step_shape sch t t' -> keyed sch t -> keyed sch t'.
 Proof.
-  intros [->|[k [k' [v [-> [L ->]]]]]] K; auto.
+  intros [->|[f [k' [v [-> [L ->]]]]]] K; auto.
   intros k1 r1 I. unfold put in I. apply (Permutation_in _ (ins_sorted_perm _ _)) in I.
   destruct I as [E|I]; [inversion E; auto|].
-  rewrite remove_as_filter in I. apply filter_In in I. apply K, I.
+  apply filter_In in I. apply K, I.
 Qed.
 
 (* exec keeps every row under the key computed from its own columns *)
